@@ -236,6 +236,22 @@ pub fn run_history(file: &[u8], ops: &[(usize, Op)], with_fp: bool) -> Result<Ve
             continue;
         }
         let before = seeks.get();
+        // every other reset goes through the other public route to a fresh cursor:
+        // ReaderCursor::into_reader followed by Reader::into_cursor
+        if matches!(op, Op::Reset) && lines.len() % 2 == 1 {
+            let old = cursors[*cid].take().unwrap();
+            match catch(move || old.into_reader().into_cursor()) {
+                Ok(Ok(fresh)) => cursors[*cid] = Some(fresh),
+                Ok(Err(e)) => {
+                    lines.push(format!("o {} {} = E {} 0", cid, opname, err_class(&e)));
+                    break;
+                }
+                Err(_) => {
+                    lines.push(format!("o {} {} = P", cid, opname));
+                    break;
+                }
+            }
+        }
         let cur = cursors[*cid].as_mut().unwrap();
         let res = catch(|| -> Result<Option<(Vec<u8>, Vec<u8>)>, String> {
             let r = match op {
@@ -389,7 +405,12 @@ pub fn emit_hist<W: Write>(c: &mut Cases<W>, cfg: &FileCfg, es: &[(Vec<u8>, Vec<
     for (k, v) in es {
         c.line(&format!("e {} {}", hex(k), hex(v)));
     }
-    match catch(|| Reader::new(Cursor::new(file)).map(|r| (r.file_version() as u32, r.compression_type() as u8, r.len()))) {
+    match catch(|| Reader::new(Cursor::new(file)).map(|r| {
+        if r.is_empty() != (r.len() == 0) {
+            println!("DIRECT fail Reader::is_empty() = {} but len() = {}", r.is_empty(), r.len());
+        }
+        (r.file_version() as u32, r.compression_type() as u8, r.len())
+    })) {
         Ok(Ok((ver, codec, len))) => c.line(&format!("meta {} {} {}", ver, codec, len)),
         Ok(Err(e)) => c.line(&format!("meta err {} -", err_class(&e))),
         Err(_) => c.line("meta panic - -"),
